@@ -402,6 +402,26 @@ pub fn deep_chain_streams() -> Vec<(String, Vec<u8>)> {
 
 /// Blocks with more tokens than fit 16 bits (and, once, 20 bits): literal-only fixed Huffman blocks
 /// of 70000 tokens, twice in a row, 100 then 65636 (equal modulo 2^16), and one of 2^20 + 2^16 + 4
+/// Blocks in which one symbol occurs more often than a 16-bit counter holds (the token frequency counters
+/// of a block are u16): only libdeflate cuts blocks long enough (300 000 bytes of plaintext).
+pub fn frequent_symbol_streams(rng: &mut Rng) -> Vec<(String, Vec<u8>)> {
+    let mut v = Vec::new();
+    // one literal more than 65535 times: 'X' followed by two scrambled bytes, so that no string of three bytes
+    // repeats inside a window and the statistics stay the same over the whole input (libdeflate would
+    // otherwise end the block early); libdeflate keeps at most 50000 references per block below level 10,
+    // so a length or distance symbol cannot get there
+    for (level, mult) in [(6, 0x9E37u32), (3, 0x6A09), (8, 0xBB67)] {
+        let mut text = Vec::with_capacity(300000);
+        let start = rng.below(60000) as u32;
+        for i in 0..100000u32 {
+            let c = (start + i).wrapping_mul(mult) & 0xffff;
+            text.push(b'X'); text.push((c >> 8) as u8); text.push(c as u8);
+        }
+        v.push((format!("frequent/literal-100000-times/libdeflate:l{}", level), libdeflate_raw(&text, level)));
+    }
+    v
+}
+
 pub fn big_block_streams(rng: &mut Rng, with_million: bool) -> Vec<(String, Vec<u8>)> {
     let mut v = Vec::new();
     let mut shapes: Vec<(&str, Vec<usize>)> = vec![("70000", vec![70000]), ("70000+70000+3", vec![70000, 70000, 3]), ("100+65636+5", vec![100, 65636, 5])];
